@@ -2024,13 +2024,24 @@ func (e *c15Env) renderArg(a ast.Expr, bound, recvObj types.Object) string {
 func (e *c15Env) batchCase(name string, tn *types.TypeName, cc *ast.CaseClause, bound, recvObj types.Object, self *types.Func) {
 	c, info := e.c, e.info
 	key := name + "/case " + tn.Name() + " recurses element-wise once"
-	body := c15Flat(cc.Body)
+	body := c15UnwrapBatchBody(info, cc.Body) // (c15x.go) blocks, labels, alias definitions and one-shot switch wrappers removed
 	if len(body) != 1 {
 		c.bad("C15.b", key, cc.Pos(), "the batch case is not a single loop over the batch")
 		return
 	}
 	defs := c15DefsOf(info, cc)
 	it := c15IterOf(info, defs, body[0])
+	if it != nil {
+		// a loop over the batch that can be left early drops the rest of the batch, whatever else it does
+		if exits := c15LoopExits(info, cc, it.stmt); len(exits) > 0 {
+			what := "return"
+			if br, ok := exits[0].(*ast.BranchStmt); ok {
+				what = br.Tok.String()
+			}
+			c.bad("C15.b", key, exits[0].Pos(), "the loop over the batch can be left early (%s inside the loop body): the commands that follow in the same batch are dropped, they never take effect", what)
+			return
+		}
+	}
 	if it == nil || !it.full {
 		c.undecided("C15.b", key, cc.Pos(), "the batch case is not a loop that visits every element front to back")
 		return
